@@ -84,7 +84,8 @@ Definition w_subst_test_not := mk FSubstitute 1 9 P0 (SList [1;2]) SNil None Non
 Definition w_setdiff_test_not := mk FSetDifference 0 0 P0 (SList [1;2]) (SList [2]) None None None (TTestNot TEql) CAbsent false.
 (* (remove 1 '(1 2 1) :count nil) => (2) (repaired: was a type-error) *)
 Definition w_count_nil := mk FRemove 1 0 P0 (SList [1;2;1]) SNil None None None TDefault CNil false.
-(* (substitute 9 1 '(0 1 0 1) :count 1) => (0 1 0 1); :count 0 replaces; a negative count replaces all *)
+(* (substitute 9 1 '(0 1 0 1) :count 1) => (0 9 0 1); :count 0 and a negative count replace nothing
+   (repaired: were (0 1 0 1), (9 1), (9 9)) *)
 Definition w_subst_count := mk FSubstitute 1 9 P0 (SList [0;1;0;1]) SNil None None None TDefault (CNum 1) false.
 Definition w_subst_count0 := mk FSubstitute 1 9 P0 (SList [1;1]) SNil None None None TDefault (CNum 0) false.
 Definition w_subst_count_neg := mk FSubstitute 1 9 P0 (SList [1;1]) SNil None None None TDefault (CNum (-1)) false.
@@ -139,7 +140,7 @@ Definition w_remove_if_not := mk FRemoveIfNot 0 0 P0 (SList [0;1;2]) SNil None N
 Definition w_find_if_not := mk FFindIfNot 0 0 P0 (SVec [0;1;2]) SNil None None None TDefault CAbsent false.
 
 Definition refutation_witnesses : list call :=
-  [w_remove_if_not; w_find_if_not; w_test_not; w_subst_test_not; w_setdiff_test_not; w_subst_count; w_subst_count0; w_subst_count_neg;
+  [w_remove_if_not; w_find_if_not; w_test_not; w_subst_test_not; w_setdiff_test_not;
    w_mismatch_from_end;
    w_fill_end; w_fill_start;
    w_reduce_empty; w_reduce_start; w_dups_ne; w_dups_from_end].
@@ -148,10 +149,10 @@ Lemma all_refuted : forallb refutes refutation_witnesses = true.
 Proof. vm_compute. reflexivity. Qed.
 
 Lemma refuted_values :
-  map m_call [w_test_not; w_subst_count; w_mismatch_from_end; w_reduce_empty] =
-  [Some (RErr EType); Some (RSeq [0;1;0;1]); Some (RInt 2); Some RNil] /\
-  map s_call [w_test_not; w_subst_count; w_mismatch_from_end; w_reduce_empty] =
-  [Some (RElt 0); Some (RSeq [0;9;0;1]); Some (RInt 3); Some (RElt 0)].
+  map m_call [w_test_not; w_mismatch_from_end; w_reduce_empty] =
+  [Some (RErr EType); Some (RInt 2); Some RNil] /\
+  map s_call [w_test_not; w_mismatch_from_end; w_reduce_empty] =
+  [Some (RElt 0); Some (RInt 3); Some (RElt 0)].
 Proof. vm_compute. split; reflexivity. Qed.
 
 (* ---- repaired defects: the witnesses of the findings repaired in slip (repo_fixes/C14-n.patch) are now inside
@@ -162,7 +163,8 @@ Definition repaired_witnesses : list (call * res) :=
     (w_map_nil, RSeq []); (w_merge_nil, RSeq [1]); (w_search_from_end, RInt 0); (w_search_empty, RInt 1);
     (w_mismatch_start, RInt 2); (w_replace_end, RSeq [9;9;3]);
     (w_reduce_start_init, RElt 7); (w_some_value, RElt 2); (w_assoc_order, RSeq [2;0]);
-    (w_merge_tie, RSeq [-1;1]) ].
+    (w_merge_tie, RSeq [-1;1]); (w_subst_count, RSeq [0;9;0;1]); (w_subst_count0, RSeq [1;1]);
+    (w_subst_count_neg, RSeq [1;1]) ].
 Definition repaired_ok (cr : call * res) : bool :=
   in_domain (fst cr) &&
   match m_call (fst cr), s_call (fst cr) with
@@ -262,8 +264,6 @@ Lemma test_not_refuted : refutes w_test_not = true /\ refutes w_subst_test_not =
 Proof. vm_compute. repeat split; reflexivity. Qed.
 Lemma if_not_missing_refuted : refutes w_remove_if_not = true /\ refutes w_find_if_not = true /\
   m_call w_remove_if_not = Some (RErr EUndefined) /\ s_call w_remove_if_not = Some (RSeq [0]) /\ s_call w_find_if_not = Some (RElt 1).
-Proof. vm_compute. repeat split; reflexivity. Qed.
-Lemma substitute_count_refuted : refutes w_subst_count = true /\ refutes w_subst_count0 = true /\ refutes w_subst_count_neg = true.
 Proof. vm_compute. repeat split; reflexivity. Qed.
 Lemma mismatch_refuted : refutes w_mismatch_from_end = true.
 Proof. vm_compute. reflexivity. Qed.
